@@ -243,6 +243,43 @@ func runC03(r *engine.Run) {
 			c.Outcome("unserialisable/error")
 		}
 	})
+	// FRMPayload given as several items (a header part and a body part): the methods transform the
+	// concatenation, preserving its length
+	multi := [][]int{{5, 7}, {16, 1}, {1, 16}, {3, 0, 9}, {20, 20, 2}}
+	r.PartDims("method/multi-item-frmpayload", []string{"mtype:4", fmt.Sprintf("item lengths:%d", len(multi)), "key:3"}, uint64(4*len(multi)*3), func(c *engine.Case) {
+		mt := lorawan.MType(2 + c.Index%4)
+		lens := multi[(c.Index/4)%uint64(len(multi))]
+		key := c02Keys[c.Index/4/uint64(len(multi))]
+		uplink := mt == lorawan.UnconfirmedDataUp || mt == lorawan.ConfirmedDataUp
+		c.Eval()
+		var items []lorawan.Payload
+		var plain []byte
+		for i, n := range lens {
+			b := fillBytes(n, byte(0x30+i*0x20))
+			plain = append(plain, b...)
+			items = append(items, &lorawan.DataPayload{Bytes: append([]byte(nil), b...)})
+		}
+		port := uint8(9)
+		p := lorawan.PHYPayload{MHDR: lorawan.MHDR{MType: mt, Major: lorawan.LoRaWANR1}, MACPayload: &lorawan.MACPayload{
+			FHDR: lorawan.FHDR{DevAddr: lorawan.DevAddr{1, 2, 3, 4}, FCnt: 77}, FPort: &port, FRMPayload: items}}
+		if err := p.EncryptFRMPayload(keyOf(key)); err != nil {
+			c.Outcome("multi-item/refused")
+			return
+		}
+		c.NonTrivial()
+		got, ok := opaqueBytes(p.MACPayload.(*lorawan.MACPayload).FRMPayload)
+		want := spec.XOR(plain, spec.Keystream(key, uplink, 0x01020304, 77, len(plain)))
+		if !ok || !bytes.Equal(got, want) {
+			c.Fail("method/frm/multi-item", fmt.Sprintf("%v frame with FRMPayload items of %v bytes: EncryptFRMPayload returned nil and left %x (%d bytes); the key-stream over the %d bytes gives %x", mt, lens, got, len(got), len(plain), want), nil)
+			return
+		}
+		if err := p.DecryptFRMPayload(keyOf(key)); err != nil {
+			c.Fail("method/frm/multi-item", fmt.Sprintf("DecryptFRMPayload after EncryptFRMPayload: %v", err), nil)
+		} else if back, ok := opaqueBytes(p.MACPayload.(*lorawan.MACPayload).FRMPayload); !ok || !bytes.Equal(back, plain) {
+			c.Fail("method/frm/multi-item", fmt.Sprintf("items of %v bytes: encrypt then decrypt gives %x, plaintext %x", lens, back, plain), nil)
+		}
+		c.Outcome("multi-item/ok")
+	})
 	spM := (&engine.Space{}).Dim("mtype", 4).Dim("fport", 4).Dim("fopts-form", len(foForms)).Dim("frm-form", len(frmForms)).Dim("key", 3).Dim("devaddr", 3).Dim("fcnt", 5)
 	r.PartDims("method/PHYPayload", spM.Desc(), spM.N(), func(c *engine.Case) {
 		var ch [7]int
